@@ -137,6 +137,11 @@ NESTED = [[(-2.0, 1.0), (-0.5, 0.7)], [(-0.5, 0.7), (0.1, 2.0)], [(0.1, 0.4), (-
 NESTED_THOROUGH = NESTED + [[(-0.5, 0.7), (-2.0, 1.0)], [(-INF, 0.3), (-0.3, 2.0)]]
 # construction histories of the model under test ("via"); "direct" = freshly constructed
 VIAS = ["reinit", "calib", "after-other", "deepcopy"]
+# further histories, applied to the Levy (non-exponential) specs in quick and to every spec in thorough:
+#   dill        the model is used, sent through dill (what the pool workers receive), the ORIGINAL is re-parametrised
+#               (every attribute re-assigned to other values, initialisation()) and used; the copy is judged
+#   int-params  ARGUMENT FORM of the parameters: every integer-valued parameter value handed over as a Python int
+VIAS_EXTRA = ["dill", "int-params"]
 # second donor table: used for an attribute whose first donor value (mc.alphabets.DONOR_PARAMS) equals the target value
 DONOR2 = {
     "hem": {"sigma": 0.07, "p": 0.55, "eta1": 17.0, "eta2": 23.0, "intensity": 4.0},
@@ -159,8 +164,66 @@ EDGE_SPECS = [
     {"family": "merton", "exp": False, "params": {"sigma": 0.1, "sigma_j": 0.5, "mu_j": 0.2, "intensity": 0.5}},
     {"family": "cgmy", "exp": False, "params": {"c": 2.0, "g": 1.0, "m": 50.0, "y": 0.5}},
 ]
+# wide jump laws: the mass far from the origin (at the integer end points 1, 2, 5 of E) is a sizeable part of the total, so
+# that a term of an antiderivative that is dropped / truncated there is visible (the menu M1 has its jumps within +-0.3)
+WIDE_SPECS = [
+    {"family": "merton", "exp": False, "params": {"sigma": 0.1, "sigma_j": 0.6, "mu_j": 0.1, "intensity": 2.0}},
+    {"family": "merton", "exp": False, "params": {"sigma": 0.1, "sigma_j": 3.0, "mu_j": 1.0, "intensity": 2.0}},
+    {"family": "hem", "exp": False, "params": {"sigma": 0.1, "p": 0.4, "eta1": 1.5, "eta2": 0.8, "intensity": 5.0}},
+    {"family": "vg", "exp": False, "params": {"sigma": 1.0, "nu": 1.0, "theta": -0.3}},
+    {"family": "vg", "exp": False, "params": {"sigma": 0.2, "nu": 50.0, "theta": 0.0}},
+    {"family": "cgmy", "exp": False, "params": {"c": 0.5, "g": 0.7, "m": 1.1, "y": 0.5}},
+    {"family": "cgmy", "exp": False, "params": {"c": 0.5, "g": 1.1, "m": 0.7, "y": 1.2}},
+]
+# boundary values of the parameters that the setters accept ("positive" = >= 0) or that are next to a rejected one.
+# "boundary": True marks CGMY without damping on a side (g == 0 / m == 0): a legal parameter value for which several closed
+# forms of the library degenerate (0 ** negative, exp1(0) - exp1(0)); there a route that RAISES or returns NaN is counted
+# (`boundary_route_degenerate`) and noted, never alarmed; a finite value is judged like any other.
+# "ns" restricts the moment orders of a spec (Merton with a narrow jump law away from the split points of the quadrature
+# fall-back: n >= 3 is a recorded weakness of that fall-back, see the module docstring).
+BOUNDARY_SPECS = [
+    {"family": "cgmy", "exp": False, "boundary": True, "params": {"c": 1.0, "g": 0.0, "m": 20.0, "y": 0.5}},
+    {"family": "cgmy", "exp": False, "boundary": True, "params": {"c": 1.0, "g": 0.0, "m": 20.0, "y": 1.5}},
+    {"family": "cgmy", "exp": False, "boundary": True, "params": {"c": 1.0, "g": 15.0, "m": 0.0, "y": 1.2}},
+    {"family": "cgmy", "exp": False, "boundary": True, "params": {"c": 0.3, "g": 0.0, "m": 0.0, "y": 0.5}},
+    {"family": "cgmy", "exp": False, "boundary": True, "params": {"c": 0.3, "g": 6.0, "m": 0.0, "y": 0.0}},
+    {"family": "cgmy", "exp": False, "params": {"c": 1.0, "g": 1e-3, "m": 20.0, "y": 1.5}},
+    {"family": "cgmy", "exp": False, "params": {"c": 1e-8, "g": 15.0, "m": 20.0, "y": 0.5}},
+    {"family": "hem", "exp": False, "params": {"sigma": 0.1, "p": 1e-9, "eta1": 10.0, "eta2": 40.0, "intensity": 5.0}},
+    {"family": "hem", "exp": False, "params": {"sigma": 0.1, "p": 1.0, "eta1": 10.0, "eta2": 40.0, "intensity": 0.0}},
+    {"family": "merton", "exp": False, "params": {"sigma": 0.1, "sigma_j": 1e-3, "mu_j": 0.0, "intensity": 3.0}},
+    {"family": "merton", "exp": False, "ns": [0, 1, 2], "params": {"sigma": 0.1, "sigma_j": 1e-3, "mu_j": 0.3, "intensity": 3.0}},
+    {"family": "merton", "exp": False, "params": {"sigma": 0.1, "sigma_j": 0.05, "mu_j": 0.3, "intensity": 0.0}},
+    {"family": "vg", "exp": False, "params": {"sigma": 0.2, "nu": 1e-3, "theta": 0.0}},
+    {"family": "vg", "exp": False, "params": {"sigma": 1e-3, "nu": 0.2, "theta": 0.1}},
+]
+BOUNDARY_SPECS_THOROUGH = [
+    {"family": "cgmy", "exp": False, "boundary": True, "params": {"c": 1.0, "g": 0.0, "m": 20.0, "y": 1.0}},
+    {"family": "cgmy", "exp": False, "boundary": True, "params": {"c": 1.0, "g": 0.0, "m": 20.0, "y": 0.0}},
+    {"family": "cgmy", "exp": False, "boundary": True, "params": {"c": 1.0, "g": 0.0, "m": 20.0, "y": -0.5}},
+    {"family": "cgmy", "exp": False, "boundary": True, "params": {"c": 1.0, "g": 15.0, "m": 0.0, "y": 0.5}},
+    {"family": "cgmy", "exp": False, "boundary": True, "params": {"c": 1.0, "g": 15.0, "m": 0.0, "y": 1.0}},
+    {"family": "cgmy", "exp": False, "boundary": True, "params": {"c": 0.3, "g": 0.0, "m": 0.0, "y": 1.5}},
+    {"family": "cgmy", "exp": False, "params": {"c": 1.0, "g": 1e-3, "m": 1e-3, "y": 0.5}},
+]
 NS = [0, 1, 2, 3, 4, 5]
+NS_TOOLS_LARGE = [8, 13]  # tools only: beyond every small-integer case of the helper
 ALPHAS = [0.1, 0.7, 2.4, 7.0]
+
+# ---- argument forms ---------------------------------------------------------------------------------------------------
+# the usual form of an end point is a Python float. Every other legal form of the same number must give the same answer.
+# scalar forms accepted by the measure routes; `mass` (isinstance(a, Real) dispatch) accepts the Real ones; the array form
+# of `mass` has its own sequence forms
+FORMS_NU = ["int", "npint", "int-float", "float-int", "npfloat", "0d", "0d-int", "kw", "negzero"]
+FORMS_MASS = ["int", "npint", "int-float", "float-int", "npfloat", "kw", "negzero"]
+FORMS_MASS_ARRAY = ["list", "tuple", "int-array"]
+# pairs on which the float-like forms (npfloat, 0d, kw) are evaluated in the quick tier (thorough: every pair); the integer
+# forms are evaluated on EVERY pair of E they apply to
+FORM_PAIRS = [(-INF, -1.0), (-2.0, -0.3), (-0.3, -1e-3), (-1.0, 0.0), (0.0, 0.05), (1e-3, 0.3), (0.3, INF), (-0.3, 0.3),
+              (-INF, INF), (-5.0, 2.0), (1.0, 2.0), (-2.0, -1.0)]
+# forms of the truncation interval handed to truncate_levy_measure (the usual form is a tuple of Python floats; the library
+# itself passes a tuple of numpy floats: grid.truncations[0])
+TRUNC_FORMS = ["int", "npint", "npfloat", "list", "array", "int-array"]
 
 RTOL_CLOSED, ATOL_CLOSED_REL = 1e-9, 1e-13
 RTOL_QUAD, ATOL_QUAD = 1e-7, 5e-8
@@ -170,13 +233,17 @@ RTOL_QUAD, ATOL_QUAD = 1e-7, 5e-8
 # cases
 # ----------------------------------------------------------------------------------------------------------------------
 
+def _int_valued_params(spec):
+    return [k for k, v in spec["params"].items() if isinstance(v, float) and float(v).is_integer()]
+
+
 def cases(tier):
     thorough = tier == "thorough"
     out = []
     for hist in ("fresh", "interleaved"):
         for alpha in ALPHAS:
-            for n in NS:
-                out.append({"sub": "tools", "alpha": alpha, "n": n, "ends": "wide", "hist": hist})
+            for n in NS + (NS_TOOLS_LARGE if hist == "fresh" else []):
+                out.append({"sub": "tools", "alpha": alpha, "n": n, "ends": "wide", "hist": hist, "forms": hist == "fresh"})
     specs = model_specs(tier, exp=(False, True))
     # the Levy measure does not depend on the rates: one (r,d) per exponential model
     specs = [s for s in specs if not s.get("exp") or (s["r"], s["d"]) == (0.02, 0.0)]
@@ -185,25 +252,47 @@ def cases(tier):
               for y in (CGMY_Y_EXTRA if thorough else CGMY_Y_EXTRA[:1])]
     truncs = TRUNCS_THOROUGH if thorough else TRUNCS
     nested = NESTED_THOROUGH if thorough else NESTED
+    edges = EDGE_SPECS + WIDE_SPECS + BOUNDARY_SPECS + (BOUNDARY_SPECS_THOROUGH if thorough else [])
     # every spec directly constructed (simplest first), then through every construction history: the "reinit" twin of
     # mc.alphabets.with_reinit and the histories of this module (`_build`)
     twins = [s for s in with_reinit(specs) if s.get("via") == "reinit"]
     assert len(twins) == len(specs), "with_reinit must give one twin per 1-d spec"
     variants = list(specs) + twins + [dict(s, via=v) for v in VIAS if v != "reinit" for s in specs]
-    variants += with_reinit(EDGE_SPECS)
+    variants += with_reinit(edges)
+    # dill round trip (original re-parametrised afterwards): Levy specs in quick, every spec in thorough
+    variants += [dict(s, via="dill") for s in specs + edges if thorough or not s.get("exp")]
+    # integer-valued parameters handed over as Python ints: quick = the first such spec of every family / branch of the
+    # activity index, thorough = every spec that has an integer-valued parameter
+    seen = set()
+    for s in specs + edges:
+        if s.get("exp") or not _int_valued_params(s):
+            continue
+        if thorough or fam_label(s) not in seen:
+            seen.add(fam_label(s))
+            variants.append(dict(s, via="int-params"))
 
-    def menu(singles, nests, copies):
+    def menu(singles, nests, copies, forms=()):
         js = lambda ts: [core.jsonable(list(t)) for t in ts]  # noqa: E731
         return ([{"Ts": js([t]), "mode": "inplace"} for t in singles] + [{"Ts": js(ts), "mode": "inplace"} for ts in nests]
-                + [{"Ts": js(ts), "mode": "deepcopy"} for ts in copies])
+                + [{"Ts": js(ts), "mode": "deepcopy"} for ts in copies]
+                + [{"Ts": js(ts), "mode": mode, "tform": tf} for ts, mode, tf in forms])
 
+    # ARGUMENT FORM of the truncation interval (integer forms need integer end points)
+    tforms_full = [([(-2.0, 1.0)], "inplace", "int"), ([(-1.0, 2.0)], "deepcopy", "int-array"), ([(-0.5, 0.7)], "deepcopy", "npfloat"),
+                   ([(-2.0, 1.0), (-0.5, 0.7)], "inplace", "array"), ([(-1.0, 2.0)], "inplace", "npint"), ([(-0.5, 0.7)], "inplace", "list")]
+    tforms_short = [([(-1.0, 2.0)], "inplace", "int"), ([(-0.5, 0.7)], "deepcopy", "npfloat")]
+    if thorough:
+        tforms_full += [([(-5.0, 5.0)], "inplace", "int"), ([(-INF, 0.3)], "inplace", "npfloat"), ([(0.0, 1.0)], "inplace", "int"),
+                        ([(-2.0, 1.0), (-1.0, 2.0)], "deepcopy", "int")]
+        tforms_short = tforms_full[:4]
     # directly constructed models: every truncation and every nested pair in place, plus (copy-then-truncate) the first
     # truncation and the first two nested pairs; models reached through a history: one of each kind
-    full = menu(truncs, nested, [[truncs[0]], nested[0], nested[1]] if not thorough else [[t] for t in truncs] + nested)
-    short = menu(truncs[:1], nested[1:2], [[truncs[0]]]) if not thorough else menu(truncs[:3], nested[:3], [[truncs[0]], nested[1]])
+    full = menu(truncs, nested, [[truncs[0]], nested[0], nested[1]] if not thorough else [[t] for t in truncs] + nested, tforms_full)
+    short = (menu(truncs[:1], nested[1:2], [[truncs[0]]], tforms_short) if not thorough
+             else menu(truncs[:3], nested[:3], [[truncs[0]], nested[1]], tforms_short))
     for spec in variants:
-        for n in NS:
-            out.append({"sub": "model", "model": spec, "n": n, "ends": "wide",
+        for n in spec.get("ns", NS):
+            out.append({"sub": "model", "model": spec, "n": n, "ends": "wide", "forms": "all" if thorough else "quick",
                         "trunc_menu": short if spec.get("via") else full})
     return out
 
@@ -284,20 +373,67 @@ def _routes(n):
     return r
 
 
-def _call(model, nu, route, a, b, n):
-    """-> (kind, value, used_quad) with kind in 'ok' | 'raises-<Type>'"""
+def _is_intval(x):
+    return math.isfinite(x) and float(x).is_integer()
+
+
+def _convert(form, a, b):
+    """(a, b) in the argument form `form`, or None where the form does not apply to this pair"""
+    import numpy as np
+
+    if form in ("int", "npint", "0d-int", "int-array"):
+        if not (_is_intval(a) and _is_intval(b)):
+            return None
+        if form == "int":
+            return int(a), int(b)
+        if form == "npint":
+            return np.int64(a), np.int64(b)
+        if form == "0d-int":
+            return np.array(int(a)), np.array(int(b))
+        return np.array([int(a)]), np.array([int(b)])
+    if form == "int-float":
+        return (int(a), b) if _is_intval(a) else None
+    if form == "float-int":
+        return (a, int(b)) if _is_intval(b) else None
+    if form == "npfloat":
+        return np.float64(a), np.float64(b)
+    if form == "0d":
+        return np.array(a), np.array(b)
+    if form == "kw":
+        return a, b
+    if form == "negzero":  # the end point 0.0 written -0.0
+        if a != 0.0 and b != 0.0:
+            return None
+        return (-0.0 if a == 0.0 else a), (-0.0 if b == 0.0 else b)
+    if form == "list":
+        return [a], [b]
+    if form == "tuple":
+        return (a,), (b,)
+    raise ValueError(form)
+
+
+def _forms_of(route):
+    return FORMS_MASS if route == "mass" else (FORMS_MASS_ARRAY if route == "mass-array" else FORMS_NU)
+
+
+def _call(model, nu, route, a, b, n, form=None):
+    """-> (kind, value, used_quad) with kind in 'ok' | 'raises-<Type>'. form None = the usual form (Python floats; one-element
+    float arrays for the route mass-array); otherwise a, b are already converted (`_convert`) and form == "kw" calls by keyword"""
     before = _PROBE["calls"]
+    kw = form == "kw"
     try:
         if route == "mass":
-            v = model.mass(a, b)
-        elif route == "mass-array":  # the non-scalar form of LevyModel.mass: one-element arrays
-            import numpy as np
+            v = model.mass(a=a, b=b) if kw else model.mass(a, b)
+        elif route == "mass-array":  # the non-scalar form of LevyModel.mass: one-element sequences
+            if form is None:
+                import numpy as np
 
-            v = model.mass(np.array([a]), np.array([b]))
+                a, b = np.array([a]), np.array([b])
+            v = model.mass(a, b)
         elif route == "integrate_against_xn":
-            v = nu.integrate_against_xn(a, b, n)
+            v = nu.integrate_against_xn(a=a, b=b, n=n) if kw else nu.integrate_against_xn(a, b, n)
         else:
-            v = getattr(nu, route)(a, b)
+            v = getattr(nu, route)(a=a, b=b) if kw else getattr(nu, route)(a, b)
         v = float(v)
         kind = "ok"
     except RecursionError:
@@ -305,6 +441,15 @@ def _call(model, nu, route, a, b, n):
     except Exception as e:  # the statement covers the interval: raising is a failure to return the integral
         v, kind = None, f"raises-{type(e).__name__}"
     return kind, v, _PROBE["calls"] > before
+
+
+def _form_pairs(E, PAIRS, form, mode):
+    """index pairs of E on which an argument form is evaluated: the integer forms wherever they apply, the float-like ones
+    on FORM_PAIRS in quick and everywhere in thorough"""
+    if mode == "all" or form in ("int", "npint", "0d-int", "int-array", "int-float", "float-int", "negzero"):
+        return PAIRS
+    keep = set(FORM_PAIRS)
+    return [(i, j) for (i, j) in PAIRS if (E[i], E[j]) in keep]
 
 
 # ----------------------------------------------------------------------------------------------------------------------
@@ -379,11 +524,22 @@ def _build(sh, spec, n):
                    arguments), then the target is judged
       deepcopy     the target is constructed, used, deep-copied (MarkovChainProcess, the coupling constructors and the pool
                    workers all work on copies); the copy is judged
+      dill         the target is constructed, used, sent through dill.dumps / loads (the pool workers' copies); then the
+                   ORIGINAL's parameter object is re-assigned to other values, initialisation(), used; the copy is judged
+      int-params   the target's constructor is given every integer-valued parameter as a Python int
     """
     via = spec.get("via")
     if via in (None, "reinit"):
         return make_model(spec)
     direct = _direct(spec)
+    if via == "int-params":  # the same numbers, the integer-valued ones as Python ints
+        ints = _int_valued_params(spec)
+        try:
+            return make_model(dict(direct, params={k: (int(v) if k in ints else v) for k, v in spec["params"].items()}))
+        except Exception as e:  # a form the constructor rejects is outside the alphabet
+            sh.count("int_params_rejected_by_constructor")
+            sh.note(f"{_label(spec)}: constructor rejects integer parameters ({type(e).__name__}); float parameters judged instead")
+            return make_model(direct)
     target = make_model(direct)
     if via == "deepcopy":
         _warm(sh, target, n)
@@ -391,6 +547,17 @@ def _build(sh, spec, n):
     tparams = _holder(target, spec).parameters
     names = [p for p in inspect.signature(type(tparams).__init__).parameters if p != "self"]
     donor = _donor_values(spec, tparams, names)
+    if via == "dill":
+        import dill
+
+        _warm(sh, target, n)
+        twin = dill.loads(dill.dumps(target))
+        for k, v in donor.items():  # the original lives on with other values; the copy must not follow it
+            setattr(tparams, k, v)
+        tparams.initialisation()
+        _warm(sh, target, n)
+        sh.count("history_parameter_updates", len(donor))
+        return twin
     if via == "after-other":
         other = make_model(dict(direct, params=dict(donor)))
         _warm(sh, other, n)
@@ -441,6 +608,19 @@ def _local_exponent(nu, side, eps=1e-8):
     if not (f1 > 0 and f2 > 0 and math.isfinite(f1) and math.isfinite(f2)):
         return -1.0  # bounded (or vanishing) density next to 0
     return math.log2(f2 / f1) - 1.0
+
+
+def _tail_exponent(nu, side, big=1e8):
+    """gamma such that the density behaves like |x|^-(1+gamma) at side * infinity; math.inf for a tail lighter than every
+    power (the density underflows to 0 at 1e8: every damped side)"""
+    try:
+        f1 = float(nu(side * big))
+        f2 = float(nu(side * 2 * big))
+    except Exception:
+        return math.inf
+    if not (f1 > 0 and f2 > 0 and math.isfinite(f1) and math.isfinite(f2)):
+        return math.inf
+    return math.log2(f1 / f2) - 1.0
 
 
 def _flags_finite_at_zero(nu, n):
@@ -512,12 +692,26 @@ def _sub_model(sh, case):
         else:
             fin[side] = bool(by_density)
 
+    # ---- scope: integrability of |x|^n nu at +-infinity (a side without exponential damping: CGMY with g == 0 / m == 0) ----
+    fin_tail = {}
+    for side in (-1, +1):
+        gamma = _tail_exponent(nu, side)
+        fin_tail[side] = (gamma - n) > 0.1
+        if not fin_tail[side]:
+            sh.count("scope_tail_moment_diverges")
+            sh.cls(f"out-of-scope:{fam}:n={n}:tail-power-law")
+    boundary = bool(spec.get("boundary"))
+
     def elem_in_scope(k):
         lo, hi = E[k], E[k + 1]
         if hi == 0.0:
             return fin[-1]
         if lo == 0.0:
             return fin[+1]
+        if lo == -INF:
+            return fin_tail[-1]
+        if hi == INF:
+            return fin_tail[+1]
         return True
 
     def in_scope(i, j):
@@ -548,6 +742,8 @@ def _sub_model(sh, case):
     # ---- value / sign on every pair, every route -----------------------------------------------------------------------
     libvals = {}
     compared = 0
+    degenerate = set()
+    fmode = case.get("forms")
     for route in _routes(n):
         vals = {}
         for (i, j) in PAIRS:
@@ -562,6 +758,12 @@ def _sub_model(sh, case):
             kind, v, used_quad = _call(model, nu, route, a, b, n)
             sh.count("evaluations")
             sh.cls("route-uses-quad" if used_quad else "route-closed-form")
+            if boundary and (kind in ("raises-ZeroDivisionError", "raises-OverflowError") or (kind == "ok" and math.isnan(v))):
+                # a side without damping: the closed form degenerates (0 ** negative, exp1(0) - exp1(0)); recorded, not judged
+                sh.count("boundary_route_degenerate")
+                sh.cls(f"boundary-degenerate:{fam}:{route}:n={n}:{'nan' if kind == 'ok' else kind}")
+                degenerate.add(route)
+                continue
             if kind != "ok":
                 sh.violation(f"C09:value:{fam}:{route}:{kind}:n={n}:{cls}{sfx}",
                              f"{label}: {route}({a}, {b}{', n=%d' % n if route.endswith('xn') else ''}) {kind}; "
@@ -598,6 +800,28 @@ def _sub_model(sh, case):
                                  {"a": a, "b": b, "library": v})
                 sh.count("sign_checks")
         libvals[route] = vals
+        if fmode:
+            _argforms(sh, model, nu, route, n, vals, E, PAIRS, fmode, scale, f"{fam}:{route}", label, lambda a, b: suffix(a, b))
+            # ---- exact ties: the degenerate interval [e, e] carries no mass -------------------------------------------------
+            for e in E:
+                if not math.isfinite(e) or (e == 0.0 and not (fin[-1] and fin[+1])):
+                    continue
+                kind, v, used_quad = _call(model, nu, route, e, e, n)
+                sh.count("evaluations")
+                if e == 0.0 and kind != "ok":
+                    # the point interval AT the singularity: recorded, not judged (CGMY with y < 0: integrate(0.0, 0.0) recurses
+                    # without end - reported as a finding of the build; the statement speaks of intervals)
+                    sh.count("tie_at_origin_raises")
+                    sh.cls(f"tie-at-origin:{fam}:{route}:{kind}")
+                    continue
+                if boundary and (kind != "ok" or math.isnan(v)):
+                    sh.count("boundary_route_degenerate")
+                    continue
+                if kind != "ok" or not (abs(v) <= _tol(0.0, scale, used_quad)):
+                    fc = kind if kind != "ok" else _failure_class(v, 0.0, 0.0)
+                    sh.violation(f"C09:value:{fam}:{route}:degenerate-interval:{fc}:n={n}:{'at0' if e == 0 else 'away-from-0'}{vsfx}",
+                                 f"{label}: {route}({e}, {e}) {'= %r' % v if kind == 'ok' else kind}; the integral over a point is 0",
+                                 {"a": e, "b": e, "n": n, "route": route, "library": v})
 
         # ---- additivity on all triples (library values only) -----------------------------------------------------------
         for i, j, k in itertools.combinations(range(len(E)), 3):
@@ -617,6 +841,9 @@ def _sub_model(sh, case):
                              {"a": a, "b": b, "c": c, "n": n, "route": route, "values": [v1, v2, v3], "tolerance": tol})
         sh.outcome((label, n, route, [round(v, 12) if math.isfinite(v) else repr(v) for v, _ in list(vals.values())[:6]]))
 
+    if degenerate:
+        sh.note(f"{label}: n={n}: route(s) {sorted(degenerate)} raise / return NaN on intervals of the undamped side (g == 0 or "
+                f"m == 0): counted as boundary_route_degenerate, not judged")
     if compared:
         sh.nontriv()
     if n in (1, 3) and spec["family"] in ("vg", "hem") and not spec["params"]:
@@ -636,8 +863,42 @@ def _sub_model(sh, case):
     if tmenu is None:  # case files written before the menu existed
         tmenu = [{"Ts": [T], "mode": "inplace"} for T in case.get("truncs", [])]
     base_cache = {}
-    for item in tmenu:
-        _truncated(sh, spec, model, base_cache, fam, label, n, [tup(T) for T in item["Ts"]], item["mode"], fin, scale, E, PAIRS)
+    for pos, item in enumerate(tmenu):
+        _truncated(sh, spec, model, base_cache, fam, label, n, [tup(T) for T in item["Ts"]], item["mode"], fin, scale, E, PAIRS,
+                   fin_tail=fin_tail, tform=item.get("tform"), fmode=fmode if (pos == 0 or item.get("tform")) else None)
+
+
+def _argforms(sh, model, nu, route, n, vals, E, PAIRS, fmode, scale, who, label, suffix, ksfx=""):
+    """ARGUMENT FORM: the same interval handed over in every other legal form of its end points (Python / numpy ints, int and
+    float mixed, numpy floats, 0-d arrays, by keyword, 0.0 written -0.0; lists / tuples / integer arrays for the array form
+    of `mass`) must give the value of the usual form (Python floats), `vals[(i, j)] = (value, used_quad)` of the sweep.
+    A form that raises where the usual form returned is a failure to return the integral."""
+    for form in _forms_of(route):
+        for (i, j) in _form_pairs(E, PAIRS, form, fmode):
+            if (i, j) not in vals:
+                continue  # out of scope, or the usual form itself failed (reported by the sweep)
+            a, b = E[i], E[j]
+            conv = _convert(form, a, b)
+            if conv is None:
+                continue
+            v0, q0 = vals[(i, j)]
+            kind, v, q1 = _call(model, nu, route, conv[0], conv[1], n, form=form)
+            sh.count("evaluations")
+            sh.count("argument_form_comparisons")
+            sh.cls(f"argform:{form}")
+            key = f"C09:argform:{who}:%s:form={form}:n={n}:{ivclass(a, b)}{ksfx}{suffix(a, b)}"
+            if kind != "ok":
+                sh.violation(key % kind, f"{label}: {route} over [{a}, {b}] with the end points as {form} {kind}; as Python floats "
+                             f"it returns {v0!r}", {"a": a, "b": b, "n": n, "route": route, "form": form, "usual": v0})
+                continue
+            if math.isnan(v0) and math.isnan(v):
+                continue
+            tol = _tol(abs(v0), scale, q0 or q1)
+            if not (abs(v - v0) <= tol):
+                sh.violation(key % _failure_class(v, v0, tol),
+                             f"{label}: {route} over [{a}, {b}] with the end points as {form} = {v!r} but as Python floats = {v0!r} "
+                             f"(n={n}; tolerance {tol:.1e})",
+                             {"a": a, "b": b, "n": n, "route": route, "form": form, "library": v, "usual": v0, "tolerance": tol})
 
 
 def _relation(a, b, l, r):
@@ -649,7 +910,29 @@ def _relation(a, b, l, r):
     return "clipped-both" if (cl and cr) else ("clipped-left" if cl else ("clipped-right" if cr else "inside"))
 
 
-def _truncated(sh, spec, base_model, base_cache, fam, label, n, Ts, mode, fin, scale, E, PAIRS):
+def _trunc_arg(T, tform):
+    """the truncation interval T = (l, r) in the argument form `tform` (None = tuple of Python floats)"""
+    import numpy as np
+
+    l, r = T
+    if tform is None:
+        return (l, r)
+    if tform == "int":
+        return (int(l), int(r))
+    if tform == "npint":
+        return (np.int64(l), np.int64(r))
+    if tform == "npfloat":
+        return (np.float64(l), np.float64(r))
+    if tform == "list":
+        return [l, r]
+    if tform == "array":
+        return np.array([l, r])
+    if tform == "int-array":
+        return np.array([int(l), int(r)])
+    raise ValueError(tform)
+
+
+def _truncated(sh, spec, base_model, base_cache, fam, label, n, Ts, mode, fin, scale, E, PAIRS, fin_tail=None, tform=None, fmode=None):
     """Ts: the truncations applied in this order through LevyModel.truncate_levy_measure (one = the plain truncated
     measure; several = a truncated measure of a truncated measure, whose truncation interval is the intersection).
     base_model: the model judged by the value sweep (already used on every interval; never truncated itself).
@@ -658,9 +941,13 @@ def _truncated(sh, spec, base_model, base_cache, fam, label, n, Ts, mode, fin, s
     l, r = max(t[0] for t in Ts), min(t[1] for t in Ts)
     empty = not (l < r)
     base = base_model.levy_triplet.nu
+    fin_tail = fin_tail or {-1: True, +1: True}
+    boundary = bool(spec.get("boundary"))
     tm = copy.deepcopy(base_model) if mode == "deepcopy" else _build(sh, spec, n)
-    for t in Ts:
-        tm.truncate_levy_measure(t)
+    handed = [_trunc_arg(t, tform) for t in Ts]  # what the caller hands over ...
+    kept = [copy.deepcopy(h) for h in handed]  # ... and a copy taken before
+    for h in handed:
+        tm.truncate_levy_measure(h)
     if mode == "deepcopy":  # the whole sequence of MarkovChainProcess.__init__: copy, truncate, change the representation
         try:
             from rpylib.model.levymodel.levymodel import LevyRepresentation
@@ -673,7 +960,11 @@ def _truncated(sh, spec, base_model, base_cache, fam, label, n, Ts, mode, fin, s
     tnu = tm.levy_triplet.nu
     tname = "T=" + "&".join(f"({t[0]},{t[1]})" for t in Ts) + ("" if mode == "inplace" else "[copy-then-truncate]")
     tcls = ("nested" if len(Ts) > 1 else "single") + ("" if mode == "inplace" else ":copy-then-truncate")
-    ksfx = (":nested" if len(Ts) > 1 else "") + ("" if mode == "inplace" else ":copy-then-truncate") + _via_sfx(spec)
+    ksfx = ((":nested" if len(Ts) > 1 else "") + ("" if mode == "inplace" else ":copy-then-truncate")
+            + (f":tform={tform}" if tform else "") + _via_sfx(spec))
+    if tform:
+        tname += f"[as {tform}]"
+        sh.cls(f"truncation-form:{tform}")
     sh.cls(f"truncation:{tcls}:{'empty' if empty else 'nonempty'}")
     ends = sorted({x for t in Ts for x in t if math.isfinite(x)})
 
@@ -706,6 +997,8 @@ def _truncated(sh, spec, base_model, base_cache, fam, label, n, Ts, mode, fin, s
         sh.outcome((label, tname, "density", [round(float(tnu(x)), 9) for x in (-0.3, 0.3)]))
 
     def finite_on(aa, bb):
+        if (aa == -INF and not fin_tail[-1]) or (bb == INF and not fin_tail[+1]):
+            return False
         if aa < 0 < bb:
             return fin[-1] and fin[+1]
         if bb == 0:
@@ -716,6 +1009,7 @@ def _truncated(sh, spec, base_model, base_cache, fam, label, n, Ts, mode, fin, s
 
     for route in _routes(n):
         obs = []
+        tvals = {}
         for (i, j) in PAIRS:
             a, b = E[i], E[j]
             aa, bb = max(a, l), min(b, r)
@@ -756,6 +1050,10 @@ def _truncated(sh, spec, base_model, base_cache, fam, label, n, Ts, mode, fin, s
             obs.append(round(v, 12) if math.isfinite(v) else repr(v))
             if math.isnan(expected) and math.isnan(v):
                 continue
+            if boundary and (math.isnan(expected) or math.isnan(v)):
+                sh.count("boundary_route_degenerate")
+                continue
+            tvals[(i, j)] = (v, q1)
             tol = _tol(abs(expected), scale, q1 or q2) * 2
             sh.count("truncated_comparisons")
             if not (abs(v - expected) <= tol):
@@ -764,7 +1062,19 @@ def _truncated(sh, spec, base_model, base_cache, fam, label, n, Ts, mode, fin, s
                              f"{what} = {v!r}; intersection with the truncation is "
                              f"{'empty' if aa >= bb else '[%r, %r]' % (aa, bb)} where the base measure gives {expected!r}",
                              {"a": a, "b": b, "T": Ts, "n": n, "route": route, "truncated": v, "base_on_intersection": expected})
+        if fmode:
+            _argforms(sh, tm, tnu, route, n, tvals, E, PAIRS, fmode, scale, f"truncated:{fam}:{route}", f"{label} {tname}",
+                      lambda a, b: "", ksfx=ksfx)
         sh.outcome((label, tname, n, route, obs[:8]))
+
+    # the caller's truncation arguments are as they were handed over (the callee must not modify them)
+    for h, k in zip(handed, kept):
+        same = (type(h) is type(k)) and (list(h) == list(k))
+        sh.count("argument_unmodified_checks")
+        if not same:
+            sh.violation(f"C09:truncated:{fam}:argument-modified{ksfx}",
+                         f"{label} {tname}: the truncation argument handed to truncate_levy_measure was {k!r} and is {h!r} afterwards",
+                         {"before": core.jsonable(list(k)), "after": core.jsonable(list(h))})
 
 
 # ----------------------------------------------------------------------------------------------------------------------
@@ -788,6 +1098,55 @@ def _ref_xn_exp(n, a, b, alpha):
     if a < 0:
         tot += (-1) ** n * half(-min(b, 0.0), -a)
     return float(tot)
+
+
+TOOLS_FORMS = ["int", "npint", "int-float", "float-int", "npfloat", "0d", "negzero", "positional", "int-alpha", "npint-n"]
+
+
+def _tools_forms(sh, fun, n, alpha, E, PAIRS, vals, scale, ncls):
+    """ARGUMENT FORM of the helper integral: the usual form is keywords with Python floats (what the VG measure does); end
+    points as ints / numpy scalars / 0-d arrays, positional arguments, an integer-valued alpha as int, n as numpy int"""
+    import numpy as np
+
+    for form in TOOLS_FORMS:
+        if form == "int-alpha" and not _is_intval(alpha):
+            continue
+        for (i, j) in PAIRS:
+            if (i, j) not in vals:
+                continue
+            a, b = E[i], E[j]
+            nn, al = n, alpha
+            if form == "positional":
+                args, kwargs = (n, a, b, alpha), {}
+            else:
+                if form == "int-alpha":
+                    al = int(alpha)
+                elif form == "npint-n":
+                    nn = np.int64(n)
+                else:
+                    conv = _convert(form, a, b)
+                    if conv is None:
+                        continue
+                    a, b = conv
+                args, kwargs = (), {"n": nn, "a": a, "b": b, "alpha": al}
+            v0 = vals[(i, j)]
+            cls = ivclass(E[i], E[j])
+            sh.count("evaluations")
+            sh.count("argument_form_comparisons")
+            sh.cls(f"tools:argform:{form}")
+            key = f"C09:argform:tools:integral_xn_exp_minus_x:%s:form={form}:{ncls}:{cls}"
+            try:
+                v = float(fun(*args, **kwargs))
+            except Exception as e:
+                sh.violation(key % f"raises-{type(e).__name__}",
+                             f"integral_xn_exp_minus_x(n={n}, a={E[i]}, b={E[j]}, alpha={alpha}) with the arguments as {form} raises "
+                             f"{e!r}; usual form {v0!r}", {"form": form, "usual": v0})
+                continue
+            tol = RTOL_CLOSED * abs(v0) + ATOL_CLOSED_REL * scale
+            if not (abs(v - v0) <= tol):
+                sh.violation(key % _failure_class(v, v0, tol),
+                             f"integral_xn_exp_minus_x(n={n}, a={E[i]}, b={E[j]}, alpha={alpha}) with the arguments as {form} = {v!r} "
+                             f"but in the usual form = {v0!r}", {"form": form, "library": v, "usual": v0})
 
 
 def _sub_tools(sh, case):
@@ -830,6 +1189,8 @@ def _sub_tools(sh, case):
                          f"integral_xn_exp_minus_x(n={n}, a={a}, b={b}, alpha={alpha}) = {v!r} but the integral of "
                          f"x^{n} exp(-{alpha}|x|) over [{a}, {b}] is {r!r}",
                          {"n": n, "a": a, "b": b, "alpha": alpha, "library": v, "reference": r})
+    if case.get("forms"):
+        _tools_forms(sh, integral_xn_exp_minus_x, n, alpha, E, PAIRS, vals, scale, ncls)
     sh.outcome(("tools", n, alpha, case.get("hist", "fresh"), [round(v, 12) for v in list(vals.values())[:6]]))
     sh.nontriv()
     if n == 2 and alpha == 0.7:
